@@ -20,7 +20,9 @@ import SqiModel.Drv.Quat
      id.certrord p I O T           -> 0/1   T = right order certificate
      id.certisom p L1 L2 E         -> 0/1   L1·E = L2
      id.certleft p O L             -> 0/1   O·L ⊆ L
-     id.certorder p O              -> ring disc_is_p2 -/
+     id.certorder p O              -> ring disc_is_p2
+     id.certnorm I O               -> 0/1   N(I)² · covol(O) = covol(I)
+     id.certgen p I O E            -> 0/1   O·E + O·N(I) = I -/
 namespace SqiModel.Drv.Ideal
 open SqiModel SqiModel.Util SqiModel.Quat SqiModel.Ideal SqiModel.Drv.Quat
 
@@ -93,6 +95,12 @@ def handleInts : String → List Int → Option String
   | "id.certleft", p :: l => do
       let (o, l) ← latOf l; let (i, _) ← latOf l
       pure (b01 (isLeftIdealCert p o i))
+  | "id.certnorm", l => do
+      let (l1, n1, l) ← idealOf l; let (o, _) ← latOf l
+      pure (b01 (normCovolOk ⟨l1, n1, o⟩))
+  | "id.certgen", p :: l => do
+      let (l1, n1, l) ← idealOf l; let (o, l) ← latOf l; let (g, _) ← elemOf l
+      pure (b01 (generatorCert p ⟨l1, n1, o⟩ g))
   | "id.certorder", p :: l => do
       let (o, _) ← latOf l
       pure (b01 (isOrderCert p o) ++ " " ++ b01 (hasMaximalDisc p o))
